@@ -64,7 +64,7 @@ InFlight(e) == {id \in PendAt(e, "W") : ~ops[id].taken}
 
 NewOp(typ, e, c, dg, cls) ==
   [typ |-> typ, end |-> e, conn |-> c, ctx |-> "live", st |-> "pend", dg |-> dg, taken |-> FALSE, cls |-> cls,
-   lane |-> 0, s |-> 0]
+   lane |-> 0, s |-> 0, rlost |-> FALSE]
 
 \* A logical clock per end: it advances with every completed write and every raw injection of that end.  A write
 \* is stamped with the clock at its start (s); an item accepted for delivery with the clock after its completion
